@@ -137,7 +137,7 @@ def check(w):
         byid = {s["id"]: s for s in scen}
         obs2, _ = run(w, [byid[i] for i in sorted(rej)], "confirm")
         rej2, _, _ = validate(w, obs2, "confirm")
-        vlib_unreproduced(v, rej, rej2)
+        vlib_unreproduced(v, rej, rej2, total=len(obs))
         for o in obs2:
             if o["id"] in rej2:
                 v.violation(sig(o), {"scenario": o["scn"], "observed": {k: o[k] for k in ("alive", "ended", "nextok", "result", "reported")}})
